@@ -36,7 +36,7 @@ Fixpoint deval (denv : list dword) (e : exp) : option dword :=
   | Shl w a k => option_map (fun x => firstn w (repeat DZ k ++ x)) (deval denv a)
   | Shr a k => option_map (skipn k) (deval denv a)
   | Trunc w a => option_map (firstn w) (deval denv a)
-  | Add _ _ _ | Tab _ _ => None
+  | Add _ _ _ | Tab _ _ | Sub _ _ _ => None
   end.
 Definition dstep (denv : option (list dword)) (s : stmt) : option (list dword) :=
   match denv with
